@@ -63,6 +63,87 @@ def entry_points_stateless(pid: str, model, rep: Report) -> None:
     rep.floors[rule] = len(quals)
 
 
+# A second necessary condition of "for all inputs": the iterable arguments of the routine may be one-shot (a generator, map, filter).  No
+# function reachable from the property's routines traverses such a parameter twice before materialising it (E10, yv/oneshot.py).
+G = "y0.graph.NxMixedGraph"
+SL = "y0.algorithm.simplify_latent"
+TR = "y0.algorithm.transport"
+CI = "y0.algorithm.conditional_independencies"
+SINGLE_PASS_ROOTS = {
+    "C01": [f"{AI}.id_std.identify", f"{AI}.api.identify_outcomes"],
+    "C02": [f"{AI}.id_std.identify", f"{AI}.api.identify_outcomes"],
+    "C03": [f"{AI}.id_c.idc"],
+    "C04": [f"{CI}.are_d_separated"],
+    "C05": [f"{TR}.trso", f"{TR}.identify_target_outcomes"],
+    "C07": [f"{AI}.id_star.id_star"],
+    "C08": [f"{AI}.idc_star.idc_star"],
+    "C09": [f"{CT}.transport_unconditional_counterfactual_query", f"{CT}.transport_conditional_counterfactual_query", f"{CT}.unconditional_cft", f"{CT}.conditional_cft"],
+    "C14": [f"{G}.subgraph", f"{G}.remove_in_edges", f"{G}.remove_out_edges", f"{G}.remove_nodes_from", f"{G}.intervene", f"{G}.ancestors_inclusive",
+            f"{G}.descendants_inclusive", f"{G}.districts", f"{G}.get_markov_pillow", f"{G}.get_markov_blanket", f"{G}.moralize", f"{G}.disorient", f"{G}.pre",
+            f"{G}.topological_sort", "y0.graph.get_nodes_in_directed_paths"],
+    "C15": [f"{CI}.d_separations", f"{CI}.get_conditional_independencies", f"{CI}.minimal"],
+    "C16": [f"{SL}.evans_simplify", f"{SL}.simplify_latent_dag", f"{G}.to_latent_variable_dag", f"{G}.from_latent_variable_dag"],
+    "C17": ["y0.algorithm.tian_id.identify_district_variables", "y0.algorithm.tian_id.compute_c_factor", "y0.algorithm.tian_id.compute_ancestral_set_q_value"],
+    "C18": [f"{AI}.cg.make_counterfactual_graph", f"{AI}.cg.make_parallel_worlds_graph"],
+    "C19": [f"{CT}.simplify", f"{CT}.minimize_event", f"{CT}.get_counterfactual_factors", f"{CT}.do_counterfactual_factor_factorization"],
+    "C20": ["y0.algorithm.separation.sigma_separation.are_sigma_separated"],
+}
+
+
+def single_pass(pid: str, model, rep: Report) -> None:
+    if pid not in SINGLE_PASS_ROOTS:
+        return
+    import ast as _ast
+
+    from yv.oneshot import OneShot
+    from yv.rules.common import construct, loc
+
+    rule = "R" + str(int(pid[1:])) + ".8"
+    eng = OneShot(model)
+    quals = SINGLE_PASS_ROOTS[pid]
+    present = [q for q in quals if model.has_func(q)]
+
+    def callees(f):
+        out = []
+        for n in _ast.walk(f.node):
+            if isinstance(n, _ast.Call):
+                cal, _ = eng.resolve(f, n)
+                if cal is not None:
+                    out.append(cal)
+                elif isinstance(n.func, _ast.Attribute):
+                    out.extend(model.methods_by_name.get(n.func.attr, []))  # class-hierarchy approximation for `x.method(...)`
+                elif isinstance(n.func, _ast.Name):
+                    r = model.resolve_name(f.module, n.func.id)
+                    if hasattr(r, "find_method"):
+                        for mn in ("__init__", "__post_init__"):
+                            m_ = r.find_method(mn)
+                            if m_ is not None:
+                                out.append(m_)
+        return out
+
+    for q in present:
+        root = model.func(q)
+        seen, todo = {root.qname: root}, [root]
+        while todo:
+            f = todo.pop()
+            for g in callees(f):
+                if g.qname not in seen and g.qname.startswith("y0."):
+                    seen[g.qname] = g
+                    todo.append(g)
+        finds = [x for f in seen.values() for x in eng.findings(f)]
+        n_params = sum(len(eng.one_shot_params(f)) for f in seen.values())
+        cons = construct(root, "single-pass")
+        if finds:
+            x = finds[0]
+            g = model.func(x.func)
+            rep.refuted(rule, cons, f"`{x.param}` of {x.func} is declared Iterable -- it may be a generator, map or filter -- and is traversed twice before it is "
+                        f"materialised (line {x.first}, then line {x.second}: {x.how}); the second traversal of a one-shot iterable sees nothing, so the routine answers "
+                        f"for an empty `{x.param}`", loc(g, x.second), sample={"reachable functions": len(seen), "findings": len(finds)})
+        else:
+            rep.proven(rule, cons, loc=loc(root), sample={"reachable functions": len(seen), "Iterable-typed parameters watched": n_params}, nontrivial=n_params > 0)
+    rep.floors[rule] = len(quals)
+
+
 def thorough(pid: str, model, rep: Report, args) -> None:
     from yv.report import PROVEN, REFUTED, UNKNOWN
     from yv.selftest import self_validate
@@ -155,6 +236,7 @@ def main() -> int:
         rep.stats["source_digest"] = model.digest()
         mod.run(model, rep, args.tier)
         entry_points_stateless(pid, model, rep)
+        single_pass(pid, model, rep)
         if args.tier == "thorough":
             thorough(pid, model, rep, args)
     except AnalysisError as e:
